@@ -14,13 +14,16 @@ Bad(e, c) == PrintT(<<"BAD", e.tid, l, c>>)
 MBOk(e) == e.mbexp <= -8 \/ e.mbexp <= e.linexp + 2
 EndClauses(e) ==
   {c \in {"ConvergedOnlyIfCriteria", "FaultFlagged", "DistanceOfReturned", "ReturnedIsLastValid",
-          "MassBalance", "PressurePinned", "CellFluxFromSolution", "TransportDensityFromSolution"} :
+          "MassBalance", "PressurePinned", "CellFluxFromSolution", "TransportDensityFromSolution",
+          "PressureIsSolutionBlock", "PressureOfReturnedFlux"} :
      CASE c = "ConvergedOnlyIfCriteria" -> ~(e.converged = 1 => e.critmet = 1 /\ m.failedAt = -1 /\ ~m.postFailed)
        [] c = "FaultFlagged" -> ~((m.failedAt # -1 \/ m.postFailed) => e.converged = 0)
        [] c = "DistanceOfReturned" -> ~(e.dexp <= -8)
        [] c = "ReturnedIsLastValid" -> ~(e.retver = m.cur)
        [] c = "MassBalance" -> ~MBOk(e)
        [] c = "PressurePinned" -> ~(e.pinexp <= -8)
+       [] c = "PressureIsSolutionBlock" -> ~(e.pblkexp <= -12 \/ m.postFailed)
+       [] c = "PressureOfReturnedFlux" -> ~(e.pnewtexp <= -6)       \* -17 = not applicable / not decidable
        [] c = "CellFluxFromSolution" -> ~(e.cfexp <= -10)
        [] c = "TransportDensityFromSolution" -> ~(e.tdexp <= -8)}
 \* the solver object is used a second time (other masses), no fault: the first call's outputs stay the caller's, and the
